@@ -441,6 +441,21 @@ let exec (toks : string list) =
        | "validate2" -> put ci (cfg_set_validate_func2 cfg name kk) sp
        | _ -> let ((w1, cfg1), _) = cfg_set_print_func !w cfg name kk in w := w1; put ci cfg1 sp);
       std cmd "rc=ok")
+  | [("validate" | "validate2" | "printfunc") as cmd; c; p; k; sp_hex] -> with_ctx cmd c (fun ci cfg sp ->
+      (* installed through a section instance: cfg_getsec(cfg, SECPATH), then the setter on that section *)
+      let name = (match ostr_of_hex p with Some s -> s | None -> []) in
+      let kk = n_of_int (kclamp (int_of_string k)) in
+      let secpath = (match ostr_of_hex sp_hex with Some s -> s | None -> []) in
+      let (w1, r) = cfg_getsec !w cfg secpath in
+      w := w1;
+      (match r with
+       | None -> std cmd "rc=nosec"
+       | Some steps ->
+         let f s = (match cmd with
+             | "validate" -> cfg_set_validate_func s name kk
+             | "validate2" -> cfg_set_validate_func2 s name kk
+             | _ -> let ((w2, s1), _) = cfg_set_print_func !w s name kk in w := w2; s1) in
+         put ci (upd_sec cfg steps f) sp; std cmd "rc=ok"))
   | "filter" :: c :: p :: names -> with_ctx "filter" c (fun ci cfg sp ->
       let set = List.map (fun h -> match ostr_of_hex h with Some s -> s | None -> raise Bad) names in
       let setp (Cfg (n, t, f, o, fi, l, e, _)) = Cfg (n, t, f, o, fi, l, e, Some set) in
